@@ -81,6 +81,21 @@ func (e *connStatus) EpochWithoutLock() uint64 {
 	return e.epoch
 }
 
+// StartReconnectIfEpoch moves the status to connStatusReconnecting unless the connection is closed (closed = true)
+// or the epoch differs from the given one, i.e. the wire connection the caller's error stems from has already
+// been replaced (or is being replaced): a stale error must not tear down the new connection.
+func (e *connStatus) StartReconnectIfEpoch(epoch uint64) (closed bool) {
+	e.Lock()
+	defer e.Unlock()
+	if e.IsWithoutLock(connStatusClosed) {
+		return true
+	}
+	if e.epoch == epoch {
+		e.SwapWithoutLock(connStatusReconnecting)
+	}
+	return false
+}
+
 func (e *connStatus) SwapWithoutLock(state connStatusValue) (old connStatusValue) {
 	old = e.current
 	if state == connStatusReconnecting && old != connStatusReconnecting {
